@@ -464,3 +464,17 @@ Proof.
   unfold ovl_behaviour. cbn [b_open_enosys b_opendir_enosys b_writeback_flags b_killpriv b_dax].
   repeat split; try assumption; try reflexivity. intro H; exact H.
 Qed.
+
+(* ------------------------------------------------------------------ statements as used by Props/C12.v *)
+Definition toggles_history_full : Prop := pt_history_full /\ ovl_history_full.
+Theorem toggles_history_refuted : ~ toggles_history_full.
+Proof. intros [H _]. exact (pt_history_refuted H). Qed.
+Theorem toggles_history_partial c caps :
+  toggles_from (pt_run c toggles_off caps) caps /\ toggles_from (ovl_run c toggles_off caps) caps.
+Proof. split; [apply pt_history_partial|apply ovl_history_partial]. Qed.
+
+Lemma flag_constants_short :
+  fsopt "WRITEBACK_CACHE" = F_WRITEBACK_CACHE /\ fsopt "ZERO_MESSAGE_OPEN" = F_ZERO_MESSAGE_OPEN /\
+  fsopt "ZERO_MESSAGE_OPENDIR" = F_ZERO_MESSAGE_OPENDIR /\ fsopt "HANDLE_KILLPRIV_V2" = F_HANDLE_KILLPRIV_V2 /\
+  fsopt "PERFILE_DAX" = F_PERFILE_DAX /\ fsopt "ATOMIC_O_TRUNC" = F_ATOMIC_O_TRUNC.
+Proof. vm_compute. repeat split; reflexivity. Qed.
